@@ -161,6 +161,7 @@ struct Obj {
 
   // Function
   bool is_inline;
+  bool is_inline_definition; // every declaration so far is "inline" without "extern"
   Obj *params;
   Node *body;
   Obj *locals;
